@@ -122,6 +122,9 @@ def fnmut_sites(chain):
     return out
 
 
+MUTCAP = [False]     # set per operand: may the block's closure be FnMut?
+
+
 def shaped(params, body, ret, shape, site, fnitems, opidx=0):
     c = f"|{params}| {tk(body, site)}"
     if shape == "closure" or (ret is None and shape not in ("block", "block2")):
@@ -144,6 +147,10 @@ def shaped(params, body, ret, shape, site, fnitems, opidx=0):
             return f"{{ {pre} move |{params}| {{ {inner}{body} }} }}"
         pre = f"let __m = rt::sem::cap({site}, {opidx});"
         inner = "__m.keep(); "
+        if MUTCAP[0]:
+            # ... and it counts its calls in a captured variable: an FnMut closure (sync `??` takes `Fn`: not there)
+            pre += " let mut __n = 0i64;"
+            inner += "__n += 1; "
         if TICKS[0]:
             a, b = alias_pair(site)
             pre += f" let __c = &__cnt; let __a = &{a}; let __b = &{b};"
@@ -214,6 +221,7 @@ def operand_text(item, site, st, fnitems, twin=False):
         return None
     p, b, r = cb_parts(arg, op, inty, site)
     sh = item.get("shape", "closure")
+    MUTCAP[0] = op != "inspect"
     if op in ("fold", "try_fold"):
         c = shaped(p, b, r, sh, site if not twin or sh in ("block", "block2") else f"t{site}", fnitems, opidx=1)
         init = f"{{ rt::sem::cap({site}, 0); 0i64 }}" if sh == "block2" else "0i64"
@@ -256,7 +264,7 @@ def hoist(text, site, lets):
                 j += 1
             name = f"__c{site}_{k}"
             k += 1
-            lets.append(f"let {name} = {text[i:j + 1]};")
+            lets.append(f"let mut {name} = {text[i:j + 1]};")      # (mut: the closure may be FnMut and `->` calls it by name here)
             out.append(name)
             i = j + 1
         else:
